@@ -722,7 +722,12 @@ def more_guards(inst, st):
     out_rest = all(isinstance(o.active, _OI) for o in recs)
     out_past = all(not isinstance(o.active, _OI) or not isinstance(o.active.last_time_active, _T)
                    or o.active.last_time_active.time <= st.time.time for o in recs)
-    return tables, ready, out_rest, out_past
+    from jobshoplab.types.instance_config_types import BufferTypeConfig as _BT, TransportTypeConfig as _TT
+    all_bufs = list(inst.buffers) + [b for m in inst.machines for b in (m.prebuffer, m.buffer, m.postbuffer)] + \
+        [t.buffer for t in inst.transports]
+    flex = all(b.type == _BT.FLEX_BUFFER for b in all_bufs)
+    has_agv = any(t.type == _TT.AGV for t in inst.transports)
+    return tables, ready, out_rest, out_past, flex, has_agv
 
 
 def conflict_free(offers, rnd, p=0.7):
